@@ -126,3 +126,33 @@ pub fn chan(toks: &[&str]) -> Option<String> {
     let extra = rx.try_recv().is_ok();
     Some(format!("admitted={} intact_in_order={} counter_end={} extra={}", admitted, if order_ok { 1 } else { 0 }, tx.verif_queued_bytes(), if extra { 1 } else { 0 }))
 }
+
+/// `selstress <iterations>`: does `select_ready` ever report a receiver that has nothing to receive?
+/// One producer sends a single message to one of two channels and waits until it is consumed.
+pub fn selstress(toks: &[&str]) -> Option<String> {
+    let n: usize = toks.get(0)?.parse().ok()?;
+    let (tx0, rx0) = memory_bound_channel::new::<Response>(1 << 20);
+    let (tx1, rx1) = memory_bound_channel::new::<Response>(1 << 20);
+    let prod = std::thread::spawn(move || {
+        let mut x: u64 = 88172645463325252;
+        for _ in 0..n {
+            x ^= x << 13; x ^= x >> 7; x ^= x << 17;
+            let t = if x & 1 == 0 { &tx0 } else { &tx1 };
+            if t.send(Response::EndOfEntries).is_err() { return; }
+            let start = Instant::now();
+            while tx0.verif_queued_bytes() != 0 || tx1.verif_queued_bytes() != 0 {
+                if start.elapsed() > Duration::from_secs(5) { return; }
+                std::thread::yield_now();
+            }
+        }
+    });
+    let mut spurious = 0usize; let mut got = 0usize;
+    let start = Instant::now();
+    while got < n && start.elapsed() < Duration::from_secs(120) {
+        let idx = memory_bound_channel::select_ready(&rx0, &rx1);
+        let r = if idx == 0 { rx0.try_recv() } else { rx1.try_recv() };
+        match r { Ok(_) => got += 1, Err(crossbeam::channel::TryRecvError::Empty) => spurious += 1, Err(_) => break }
+    }
+    let _ = prod.join();
+    Some(format!("received={} spurious_ready={}", got, spurious))
+}
